@@ -148,9 +148,44 @@ def callers_list(seed=0):
     return out
 
 
+def equal_callbacks():
+    """Two callbacks that compare equal (a dataclass with the same settings) and one listed twice: every entry of the list
+    sees the whole run."""
+    import dataclasses
+    from qucumber.callbacks import CallbackBase
+
+    @dataclasses.dataclass(eq=True)
+    class Counter(CallbackBase):
+        period: int = 1
+
+        def __post_init__(self):
+            object.__setattr__(self, "seen", [])
+
+        def on_epoch_end(self, s, e):
+            self.seen.append(("epoch_end", e))
+
+        def on_train_end(self, s):
+            self.seen.append(("train_end",))
+    a, b = Counter(1), Counter(1)
+    a.seen, b.seen = [], []
+    st = C.make_state("positive", 2, 2, 1)
+    st.fit(torch.zeros(4, 2, dtype=torch.double), epochs=2, pos_batch_size=2, callbacks=[a, b, a])
+    want = [("epoch_end", 1), ("epoch_end", 2), ("train_end",)]
+    f = []
+    if b.seen != want:
+        f.append("a callback that compares equal to an earlier one saw %s instead of the whole run" % (b.seen,))
+    if sorted(a.seen) != sorted(want + want):
+        f.append("a callback listed twice saw %s" % (a.seen,))
+    return f
+
+
 def native_check(quick=True):
     fails = []
     n = 0
+    f = equal_callbacks()
+    n += 1
+    if f:
+        fails.append(({"callbacks that compare equal / one listed twice": True}, f[:2]))
     f = callers_list()
     n += 1
     if f:
